@@ -15,7 +15,8 @@ Open Scope Z_scope.
 Inductive vout :=
 | VFalse                      (* no (more) solutions below this promise *)
 | VTrue                       (* the consumer is satisfied: stop everything *)
-| VErr (e : merr)             (* an error left this promise unhandled *)
+| VErr (e : merr) (exited : list Z)   (* an error left this promise unhandled; [exited]: the catch
+                                         frames whose goal had already exited when it was raised *)
 | VCut (c : Z) (o : vout)     (* a cut was executed: prune to promise c, then continue as o *)
 | VCancel.                    (* the context was found cancelled at a poll *)
 
@@ -28,7 +29,8 @@ Definition poll (st : state) : option state :=
 
 (** the promise as Force pushes it back after taking one child (promise.child) *)
 Definition stepped (p : promise) : promise :=
-  mkP (p_id p) (if p_repeat p then p_delayed p else tl (p_delayed p)) (p_ok p) (p_err p) None (p_repeat p) (p_recover p).
+  mkP (p_id p) (if p_repeat p then p_delayed p else tl (p_delayed p)) (p_ok p) (p_err p) None
+      (match p_cutp p with Some c => Some c | None => p_cutdone p end) (p_repeat p) (p_recover p) (p_exited p).
 
 Definition wrapcut (c : option Z) (o : vout) : vout :=
   match c with Some c => VCut c o | None => o end.
@@ -41,9 +43,9 @@ Definition ball_of (err : merr) : term :=
   | EFuel => Atom "$fuel"
   end.
 
-(** does frame p handle error e, and with which env? *)
-Definition handles (p : promise) (e : merr) : option (term * cont * env) :=
-  match e, p_recover p with
+(** does frame p handle error e, and with which env?  Not if its goal has exited. *)
+Definition handles (p : promise) (e : merr) (exited : list Z) : option (term * cont * env) :=
+  match e, (if existsb (Z.eqb (p_id p)) exited then None else p_recover p) with
   | EFuel, _ => None
   | _, Some (HCatch catcher recovery k env) =>
       match unify env catcher (ball_of e) with
@@ -53,6 +55,10 @@ Definition handles (p : promise) (e : merr) : option (term * cont * env) :=
   | _, None => None
   end.
 
+(** the exited set after passing frame p *)
+Definition pass (p : promise) (exited : list Z) : list Z :=
+  match p_exited p with Some x => x :: exited | None => exited end.
+
 Inductive Eval : promise -> state -> vout -> state -> Prop :=
 | EvCancel : forall p st, poll st = None -> Eval p st VCancel st
 | EvFalse : forall p st st1, poll st = Some st1 -> p_delayed p = [] -> p_err p = None -> p_ok p = false ->
@@ -60,7 +66,7 @@ Inductive Eval : promise -> state -> vout -> state -> Prop :=
 | EvTrue : forall p st st1, poll st = Some st1 -> p_delayed p = [] -> p_err p = None -> p_ok p = true ->
     Eval p st VTrue st1
 | EvErr : forall p st st1 e, poll st = Some st1 -> p_delayed p = [] -> p_err p = Some e ->
-    Eval p st (VErr e) st1
+    Eval p st (VErr e []) st1
 | EvStep : forall p st st1 th ths f q st2 oq st3 o st4,
     poll st = Some st1 -> p_delayed p = th :: ths ->
     run_thunk f th st1 = (q, st2) ->
@@ -73,14 +79,16 @@ with After : promise -> vout -> state -> vout -> state -> Prop :=
 | AfFalse : forall p st o st', Eval p st o st' -> After p VFalse st o st'      (* next alternative *)
 | AfTrue : forall p st, After p VTrue st VTrue st
 | AfCancel : forall p st, After p VCancel st VCancel st
-| AfCutMine : forall p c o st, p_id p = c -> After p (VCut c o) st o st         (* the cut was for me: I am gone too *)
-| AfCutOther : forall p c o st, p_id p <> c -> After p (VCut c o) st (VCut c o) st
-| AfCaught : forall p e st recovery k env' f q st1 o st2,
-    handles p e = Some (recovery, k, env') ->
+| AfCutMine : forall p c o st, stands_for c p = true -> After p (VCut c o) st o st   (* the cut was for me: I am gone too *)
+| AfCutOther : forall p c o st, stands_for c p = false -> After p (VCut c o) st (VCut c o) st
+| AfCaught : forall p e xs st recovery k env' f q st1 o st2,
+    p_exited p = None ->
+    handles p e xs = Some (recovery, k, env') ->
     call_goal f recovery k env' st = (q, st1) ->
     Eval q st1 o st2 ->
-    After p (VErr e) st o st2
-| AfPass : forall p e st, handles p e = None -> After p (VErr e) st (VErr e) st.
+    After p (VErr e xs) st o st2
+| AfPass : forall p e xs st, (p_exited p <> None \/ handles p e xs = None) ->
+    After p (VErr e xs) st (VErr e (pass p xs)) st.
 
 Inductive Run : list promise -> state -> fres -> state -> Prop :=
 | RunNil : forall st, Run [] st FFalse st
@@ -90,18 +98,20 @@ with Resume : vout -> list promise -> state -> fres -> state -> Prop :=
 | RsFalse : forall rest st r st', Run rest st r st' -> Resume VFalse rest st r st'
 | RsTrue : forall rest st, Resume VTrue rest st FTrue st
 | RsCancel : forall rest st, Resume VCancel rest st (FError ECancelled) st
-| RsErr : forall e rest st r st', Recover e rest st r st' -> Resume (VErr e) rest st r st'
+| RsErr : forall e xs rest st r st', Recover e xs rest st r st' -> Resume (VErr e xs) rest st r st'
 | RsCut : forall c o rest st r st', Resume o (pop_until c rest) st r st' -> Resume (VCut c o) rest st r st'
-with Recover : merr -> list promise -> state -> fres -> state -> Prop :=
-| RcFuel : forall stack st, Recover EFuel stack st FOutOfFuel st
-| RcNil : forall e st, e <> EFuel -> Recover e [] st (FError e) st
-| RcCaught : forall e p rest st recovery k env' f q st1 r st2,
-    handles p e = Some (recovery, k, env') ->
+with Recover : merr -> list Z -> list promise -> state -> fres -> state -> Prop :=
+| RcFuel : forall xs stack st, Recover EFuel xs stack st FOutOfFuel st
+| RcNil : forall e xs st, e <> EFuel -> Recover e xs [] st (FError e) st
+| RcCaught : forall e xs p rest st recovery k env' f q st1 r st2,
+    p_exited p = None ->
+    handles p e xs = Some (recovery, k, env') ->
     call_goal f recovery k env' st = (q, st1) ->
     Run (q :: rest) st1 r st2 ->
-    Recover e (p :: rest) st r st2
-| RcPass : forall e p rest st r st',
-    e <> EFuel -> handles p e = None -> Recover e rest st r st' -> Recover e (p :: rest) st r st'.
+    Recover e xs (p :: rest) st r st2
+| RcPass : forall e xs p rest st r st',
+    e <> EFuel -> (p_exited p <> None \/ handles p e xs = None) ->
+    Recover e (pass p xs) rest st r st' -> Recover e xs (p :: rest) st r st'.
 
 (** a frame's reaction to its child's outcome, read off the resumption on the
     stack that has the frame on top *)
@@ -119,37 +129,25 @@ Proof.
   - eexists _, _. split; [apply AfTrue | apply RsTrue].
   - eexists _, _. split; [apply AfCancel | apply RsCancel].
   - (* VErr *)
-    lazymatch goal with HR : Recover _ (_ :: _) _ _ _ |- _ => inv HR end.
-    + eexists _, _. split; [apply AfPass; reflexivity | apply RsErr, RcFuel].
+    lazymatch goal with HR : Recover _ _ (_ :: _) _ _ _ |- _ => inv HR end.
+    + eexists _, _. split; [apply AfPass; right; unfold handles; destruct (if existsb (Z.eqb (p_id p)) xs then None else p_recover p); reflexivity | apply RsErr, RcFuel].
     + lazymatch goal with HR : Run (_ :: _) _ _ _ |- _ => inv HR end.
       eexists _, _. split; [eapply AfCaught; eassumption | eassumption].
     + eexists _, _. split; [apply AfPass; assumption | apply RsErr; assumption].
   - (* VCut *) cbn [pop_until] in *.
-    destruct (Z.eqb_spec (p_id p) c) as [E|E].
+    destruct (stands_for c p) eqn:E.
     + eexists _, _. split; [apply AfCutMine; exact E | eassumption].
     + eexists _, _. split; [apply AfCutOther; exact E | apply RsCut; eassumption].
 Qed.
 
-Lemma handles_spec p e :
-  handles p e =
-  match e with
-  | EFuel => None
-  | _ => match p_recover p with
-         | Some (HCatch catcher recovery k env) =>
-             match unify env catcher (ball_of e) with UOk env' => Some (recovery, k, env') | _ => None end
-         | None => None
-         end
-  end.
-Proof. unfold handles. destruct e; reflexivity. Qed.
-
 Theorem force_sound :
   forall fuel,
     (forall stack st r st', force fuel stack st = (r, st') -> r <> FOutOfFuel -> Run stack st r st') /\
-    (forall e stack st r st', recover fuel e stack st = (r, st') -> r <> FOutOfFuel -> Recover e stack st r st').
+    (forall e xs stack st r st', recover fuel e xs stack st = (r, st') -> r <> FOutOfFuel -> Recover e xs stack st r st').
 Proof.
   induction fuel as [|f [IHf IHr]]; split.
   - intros stack st r st' H Hr. cbn in H. inversion H; subst. contradiction.
-  - intros e stack st r st' H Hr. cbn in H. inversion H; subst. contradiction.
+  - intros e xs stack st r st' H Hr. cbn in H. inversion H; subst. contradiction.
   - (* force *)
     intros stack st r st' H Hr. cbn [force] in H.
     destruct stack as [|p rest]; [inversion H; subst; apply RunNil|].
@@ -189,14 +187,16 @@ Proof.
            unfold stepped. rewrite Hd. cbn [tl]. exact Haf.
         -- destruct (p_cutp p); cbn [wrapcut]; [apply RsCut|]; exact Hres.
   - (* recover *)
-    intros e stack st r st' H Hr. cbn [recover] in H.
+    intros e xs stack st r st' H Hr. cbn [recover] in H.
     destruct e as [t|w| |].
     4: { inversion H; subst. contradiction. }
     all: destruct stack as [|p rest]; [inversion H; subst; apply RcNil; discriminate|].
-    all: destruct (p_recover p) as [[catcher recovery k env]|] eqn:Hrec.
-    all: try (apply RcPass; [discriminate | unfold handles; rewrite Hrec; reflexivity | eapply IHr; eassumption]).
+    all: destruct (p_exited p) as [x|] eqn:Hex.
+    all: try (apply RcPass; [discriminate | left; rewrite Hex; discriminate | unfold pass; rewrite Hex; eapply IHr; eassumption]).
+    all: destruct (if existsb (Z.eqb (p_id p)) xs then None else p_recover p) as [[catcher recovery k env]|] eqn:Hrec.
+    all: try (apply RcPass; [discriminate | right; unfold handles; rewrite Hrec; reflexivity | unfold pass; rewrite Hex; eapply IHr; eassumption]).
     all: match type of H with context [unify ?a ?b ?c] => destruct (unify a b c) as [env'| |] eqn:Hu end.
-    all: try (apply RcPass; [discriminate | unfold handles; rewrite Hrec; cbn [ball_of]; rewrite Hu; reflexivity | eapply IHr; eassumption]).
+    all: try (apply RcPass; [discriminate | right; unfold handles; rewrite Hrec; cbn [ball_of]; rewrite Hu; reflexivity | unfold pass; rewrite Hex; eapply IHr; eassumption]).
     all: match type of H with context [call_goal ?a ?b ?c ?d ?e] => destruct (call_goal a b c d e) as [q st1] eqn:Hc end.
-    all: eapply RcCaught; [unfold handles; rewrite Hrec; cbn [ball_of]; rewrite Hu; reflexivity | exact Hc | eapply IHf; eassumption].
+    all: eapply RcCaught; [exact Hex | unfold handles; rewrite Hrec; cbn [ball_of]; rewrite Hu; reflexivity | exact Hc | eapply IHf; eassumption].
 Qed.
